@@ -45,9 +45,12 @@ type Range struct {
 var errHllMerge error = errors.New("hllToMerge is nil")
 
 func GenerateTimeRangeBuckets(timeHistogram *structs.TimeBucket) *Range {
+	// EndTime is the end of the query's time range, which is inclusive: an
+	// event at EndTime is matched and belongs to the bucket that contains
+	// EndTime. Range.end is exclusive, so it is one past it.
 	return &Range{
 		start: timeHistogram.StartTime,
-		end:   timeHistogram.EndTime,
+		end:   timeHistogram.EndTime + 1,
 		step:  timeHistogram.IntervalMillis,
 	}
 }
